@@ -5,8 +5,8 @@
    Model: Yaml/Walk.v (walker, generic in sources and visitor) + Yaml/Merge2.v (Merger visitor, directives).
    [sch] (openapi projection), [opts] (infer / prepend / AssociativeSequenceKeys) and [nonstr]
    (yaml.IsValueNonString) are universally quantified parameters. *)
-From KV Require Import Yaml.Walk Yaml.WalkProofs Yaml.WalkFields Yaml.Merge2 Yaml.Merge2Proofs Yaml.Merge2Identity Yaml.Merge2IdentityProofs Yaml.Merge2Idem
-     Yaml.Merge2Frame Yaml.Merge2Examples Corr.SchemaTable Yaml.Merge3 Yaml.Merge3Examples Yaml.WalkGenProofs Gen.WalkTables.
+From KV Require Import Yaml.Walk Yaml.WalkProofs Yaml.WalkFields Yaml.Merge2 Yaml.Merge2Proofs Yaml.Merge2Identity Yaml.Merge2IdentityProofs Yaml.Merge2Idem Yaml.SmpSpec Yaml.Merge2Spec
+     Yaml.Merge2Frame Yaml.Merge2FrameList Yaml.Merge2Examples Corr.SchemaTable Yaml.Merge3 Yaml.Merge3Examples Yaml.WalkGenProofs Gen.WalkTables.
 
 (* merge2.Merge at the canonical fuel S(sum of depths) never runs out of fuel: for every schema, option
    set, patch and target the outcome is Ok / Err / Panic, never Diverge. *)
@@ -33,7 +33,7 @@ Print Assumptions C04_fuel_irrelevant.
    non-mapping value v at q that is not an implicit null is found at q in the result with the same tag
    and text; its style changes at most by the forced double-quoting of YAML-1.1-ambiguous strings
    ([quote11], see C04_quote11_same_value).
-   MISSING: paths that run through elements of keyed (associative) lists. *)
+   Paths that run through elements of keyed (associative) lists: C04_frame_keyed_list_partial below. *)
 Theorem C04_frame_partial :
   forall (Sc : Type) (sch : schema Sc) (opts : wopts) (nonstr : string -> bool),
     atomic_lists sch opts ->
@@ -45,6 +45,37 @@ Theorem C04_frame_partial :
       getp q r = Some (Fns.quote11 nonstr v).
 Proof. exact (@merge2_frame). Qed.
 Print Assumptions C04_frame_partial.
+
+(* Frame law THROUGH KEYED LISTS (partial), for every schema and option set (no [atomic_lists] hypothesis): paths made of
+   mapping steps [PK key] and list-element steps [PE k v] (the element whose merge key k has value v).
+   If [frame_okb sch opts None t p q = true] -- a boolean that walks down q and checks, with the walker's own schema
+   threading ([get_schema] / [child_schema] / [elem_schema]):
+     - at a mapping step: target mapping with pairwise different keys; patch absent there or a mapping without "$patch";
+     - at a list step: the walker treats the list as associative ([is_associative]) with the single merge key k
+       ([aseq_keys]: from the schema, or inferred); target and patch lists (the patch may be absent) consist of good
+       elements ([gel]: mappings with pairwise different keys, no "$patch" key -- so no directive elements --, a
+       non-null non-empty scalar under k); the target's key values are pairwise different; the patch list has no
+       element with key value v;
+     - at the end: the patch is absent --
+   then a non-null scalar v at q in the target is found at q in the result with the same tag and text (style: at
+   most [quote11]). Holds in prepend and in append mode; the other elements may be changed, added (their position is
+   not constrained) or deleted by the patch.
+   Guards vs findings: "no directive elements" is the complement of C04/reference/replace-directive-on-keyed-list-element
+   and of the list-directive idempotence classes; "non-null scalar" excludes C04/frame/unmentioned-null-field-dropped.
+   MISSING: elements the patch does mention (below them only the mentioned element's own fields would be framed),
+   several merge keys, lists of scalars (set lists), non-scalar leaves below list elements.
+   Non-vacuity: frame_keyed_example (Pod containers through the schema, kustomize's options),
+   frame_keyed_inferred_example (inferred key) in Yaml/Merge2FrameList.v. *)
+Theorem C04_frame_keyed_list_partial :
+  forall (Sc : Type) (sch : schema Sc) (opts : wopts) (nonstr : string -> bool)
+         (q : list pstep) (t : node) (p : option node) (r v : node),
+    q <> [] ->
+    merge2 sch opts nonstr p (Some t) = Ok (Some r) ->
+    frame_okb sch opts None t p q = true ->
+    getpe q t = Some v -> is_scalar v = true -> is_null v = false ->
+    getpe q r = Some (Fns.quote11 nonstr v).
+Proof. exact (@merge2_frame_keyed). Qed.
+Print Assumptions C04_frame_keyed_list_partial.
 
 Theorem C04_quote11_same_value :
   forall (nonstr : string -> bool) (v : node),
@@ -78,38 +109,59 @@ Theorem C04_implicit_null_dropped :
 Proof. exact (@merge2_implicit_null_dropped). Qed.
 Print Assumptions C04_implicit_null_dropped.
 
-(* Idempotence. FULL statement: merge2 p (merge2 p t) = merge2 p t for patches whose directives address
-   content present in the target. It is FALSE for the code as it is (finding
-   C04/idempotent/list-directive-copied-when-target-list-absent): a list-level "- $patch: delete" removes the
-   list; applied again, the directive element itself is copied into the document.
-   (The general idempotence proof on the atomic fragment is not done; the law is evaluated on the
-   implementation by the oracle of harness/c04laws.go on every generated in-domain case.) *)
-Theorem C04_idempotent_refuted :
-  exists p t r1 r2,
-    kmerge p t = Ok (Some r1) /\ kmerge p r1 = Ok (Some r2) /\ node_eqb r1 r2 = false.
-Proof. exact idempotent_refuted. Qed.
-Print Assumptions C04_idempotent_refuted.
+(* Idempotence. The former refutation (a list-level "- $patch: delete" copied into the document on the second
+   application; finding C04/idempotent/list-directive-copied-when-target-list-absent) is FIXED in /repo
+   (Merger.VisitList processes the directive when Dest is missing): the witness is now idempotent. *)
+Theorem C04_idempotent_list_directive :
+  exists r1, kmerge idem_patch idem_target = Ok (Some r1) /\ kmerge idem_patch r1 = Ok (Some r1) /\
+             r1 = pod [("x"%string, Scalar TInt SPlain "1")].
+Proof. exact list_directive_idempotent. Qed.
+Print Assumptions C04_idempotent_list_directive.
 
 (* PROVED PART of idempotence (partial): on kinds whose lists are atomic (no merge strategy in [sch], inference
    off), for patch and target that are mappings, have pairwise different keys in every mapping reached through
-   mappings ([wfk]) and -- the patch -- no "$patch" key in any mapping reached through mappings except
-   "$patch: delete" below the root ([nodir]):
+   mappings ([wfk]) and -- the patch -- in every mapping reached through mappings either no "$patch" key or one of
+   "$patch: delete" (not at the root), "$patch: replace", "$patch: merge" ([dirok]):
    applying the patch to the result gives the result again, as exact node equality (tags, styles, order).
-   Covers nulls (also inside added mappings), "$patch: delete" on mappings (present or absent in the target),
-   added / merged / unmentioned mappings, scalar and list replacement,
-   kind errors (the first application must succeed). The fragment is the boolean [idem_fragment];
-   [idem_example] (Yaml/Merge2Idem.v) is a non-trivial instance.
-   MISSING w.r.t. the full statement: "$patch: replace" / "$patch: merge" at mapping level and keyed lists
-   (where it is false for list-level directives, see C04_idempotent_refuted). *)
+   Covers nulls (also inside added / replacing mappings), the three mapping-level directives (on content present
+   or absent in the target, nested in each other), added / merged / replaced / unmentioned mappings, scalar and
+   list replacement, kind errors (the first application must succeed). The schema is shown to play no part on
+   this fragment ([walk_sc]). The fragment is the boolean [idem_fragment_dir]; [idem_example] and
+   [idem_dir_example] (Yaml/Merge2Idem.v) are non-trivial instances.
+   Guard vs finding: "atomic lists" excludes the list-directive class that remains
+   (C04/idempotent/list-directive-copied-when-target-list-absent-inferred-keys); an unknown "$patch" value is an
+   error of the first application.
+   MISSING w.r.t. the full statement: keyed lists (list-level directives on an absent list with a schema key:
+   fixed, see C04_idempotent_list_directive). *)
 Theorem C04_idempotent_partial :
   forall (Sc : Type) (sch : schema Sc) (opts : wopts) (nonstr : string -> bool),
     atomic_lists sch opts ->
     forall p t r : node,
-      idem_fragment p t = true ->
+      idem_fragment_dir p t = true ->
       merge2 sch opts nonstr (Some p) (Some t) = Ok (Some r) ->
       merge2 sch opts nonstr (Some p) (Some r) = Ok (Some r).
-Proof. exact (@merge2_idempotent). Qed.
+Proof. exact (@merge2_idempotent_dir). Qed.
 Print Assumptions C04_idempotent_partial.
+
+(* Refinement to the reference semantics [smp_spec] of Yaml/SmpSpec.v (typed JSON values; maps recursive with the
+   target's order kept and new keys appended sorted, scalars and atomic lists replace, null deletes, "$patch: delete"
+   deletes, added mappings lose their nulls, unmentioned implicit nulls go -- the last clause is the recorded finding
+   C04/frame/unmentioned-null-field-dropped written into the reference).
+   PROVED PART (partial): on [spec_fragment p t = idem_fragment p t && tagged p && tagged t] ([tagged]: every scalar
+   reached through mappings carries a tag, true of every parsed document; then [to_json] does not see the style
+   changes documented in C04_quote11_same_value / C04_scalar_replace_refuted) and kinds with atomic lists.
+   Guards vs findings: tagged + to_json hide "scalar-type-follows-target-quoting"; no keyed lists excludes
+   "replace-directive-on-keyed-list-element" and "list-directive-copied-when-target-list-absent".
+   MISSING: "$patch: replace|merge", keyed lists. Non-vacuity: refines_example (Yaml/Merge2Spec.v). *)
+Theorem C04_refines_spec_partial :
+  forall (Sc : Type) (sch : schema Sc) (opts : wopts) (nonstr : string -> bool),
+    atomic_lists sch opts ->
+    forall p t r : node,
+      spec_fragment p t = true ->
+      merge2 sch opts nonstr (Some p) (Some t) = Ok (Some r) ->
+      Some (to_json r) = smp_spec (to_json p) (Some (to_json t)).
+Proof. exact (@merge2_refines_spec). Qed.
+Print Assumptions C04_refines_spec_partial.
 
 (* "replaces what $patch: replace addresses" is FALSE for an element of a keyed list in prepend mode
    (the mode kustomize builds use): the element is left exactly as it was
